@@ -831,7 +831,10 @@ func main() {
 				os.Exit(2)
 			}
 			c.Case(string(raw), true, "replay", func() interface{} { return raw })
-			runAny(c, w, raw, true)
+			if !runAny(c, w, raw, false) && confirmed(c, w.isolate, func() bool { return runAny(c, w, raw, false) }) {
+				w.isolate()
+				runAny(c, w, raw, true)
+			}
 			return
 		}
 		files, _ := filepath.Glob(filepath.Join(os.Getenv("VERIF_DIR"), "harness", "corpus", "C04", "*.json"))
@@ -844,7 +847,15 @@ func main() {
 			}
 			c.Case(string(env.Case), true, "corpus", nil)
 			c.Trace()
-			runAny(c, w, env.Case, true)
+			raw := env.Case
+			if !runAny(c, w, raw, false) {
+				if seenClass() {
+					c.Count("repeat:" + lastClass)
+				} else if confirmed(c, w.isolate, func() bool { return runAny(c, w, raw, false) }) {
+					w.isolate()
+					runAny(c, w, raw, true)
+				}
+			}
 		}
 		r := c.Rng
 		// 1. pure URL stream
@@ -886,10 +897,17 @@ func main() {
 					c.Count("repeat:" + lastClass)
 					continue
 				}
-				min := shrinkCase(cs, func(x Case) bool { return !runForward(c, w, x, false) })
-				if !runForward(c, w, min, true) {
-					continue
+				if !confirmed(c, w.isolate, func() bool { return runForward(c, w, cs, false) }) {
+					continue // a hiccup of the rig, not a property of the case
 				}
+				min := shrinkCase(cs, func(x Case) bool { return !runForward(c, w, x, false) })
+				if confirmed(c, w.isolate, func() bool { return runForward(c, w, min, false) }) {
+					w.isolate()
+					if !runForward(c, w, min, true) {
+						continue
+					}
+				}
+				w.isolate()
 				runForward(c, w, cs, true) // the shrunk case stopped failing: record the original
 			}
 		}
@@ -912,10 +930,17 @@ func main() {
 					c.Count("repeat:" + lastClass)
 					continue
 				}
-				min := shrinkCase(cs, func(x Case) bool { return !runTerm(c, w, x, false) })
-				if !runTerm(c, w, min, true) {
+				if !confirmed(c, w.isolate, func() bool { return runTerm(c, w, cs, false) }) {
 					continue
 				}
+				min := shrinkCase(cs, func(x Case) bool { return !runTerm(c, w, x, false) })
+				if confirmed(c, w.isolate, func() bool { return runTerm(c, w, min, false) }) {
+					w.isolate()
+					if !runTerm(c, w, min, true) {
+						continue
+					}
+				}
+				w.isolate()
 				runTerm(c, w, cs, true)
 			}
 		}
@@ -924,7 +949,10 @@ func main() {
 			up := Case{Kind: "upgrade", Req: ReqSpec{Method: rig.Hex("GET"), Target: rig.Hex("/api/v1/namespaces/x/pods/p/exec?command=ls&container=a%2Fb"), Host: rig.Hex(clOK), Token: tokenAlice}}
 			c.Case(rig.Canon(up), true, "upgrade", func() interface{} { return "upgrade " + describe(up) })
 			c.Trace()
-			runUpgrade(c, w, up, true)
+			if !runUpgrade(c, w, up, false) && confirmed(c, w.isolate, func() bool { return runUpgrade(c, w, up, false) }) {
+				w.isolate()
+				runUpgrade(c, w, up, true)
+			}
 			c.Note("upgrade (SPDY/WebSocket) tunnels: one exercised round trip, nothing proved (partial)")
 		}
 		// 5. whole configurations and request sequences against the composed model (compose.go)
